@@ -202,6 +202,9 @@ def shrink(binary, case):
             cands.append(dict(cur, filter={'kind': 'nil', 'a': 0, 'b': 0, 'c': 0, 'd': 0, 'm': 0, 't': 0}))
         if cur.get('skip'):
             cands.append(dict(cur, skip=0))
+        for k in range(10):   # drop SGPR inputs other than the work-group IDs
+            if (cur.get('sgpr', 0) >> k) & 1:
+                cands.append(dict(cur, sgpr=cur['sgpr'] & ~(1 << k)))
         for key in ('g', 's'):
             for d in (2, 1, 0):
                 v = cur[key][d]
